@@ -10,11 +10,11 @@ def tied (item : String) : Bool := !(item.startsWith "str:")
 /-- comparisons and integer literals of two or more digits (`lit:`; one-digit ones are `sml:` items, part of the full budget only — arities
     and indices that a rewrite easily adds): what a special case for one particular input is made of — and the
     names of external functions / methods the module calls (`call:` items, presence only; iterator and Option plumbing excluded):
-    what a change of meaning without any new branch is made of — and, since informed round 10, character literals and shifts
+    what a change of meaning without any new branch is made of — and, since informed round 10, character literals, shifts and (round 12) arithmetic operators
     (the connectives `&&` / `||` stay with the owner's full budget: anchor-wide they made one harmless rewrite of `common` break
     thirteen checks instead of one). -/
 def comparison (item : String) : Bool := item == "==" || item == "!=" || item == "<=" || item == ">=" || item.startsWith "lit:" || item.startsWith "call:" || item == "conv:as" || item == "letelse"
-  || item.startsWith "chr:" || item == "shl" || item == "shr"
+  || item.startsWith "chr:" || item == "shl" || item == "shr" || item == "mul" || item == "div" || item == "add" || item == "sub"
 
 /-- within module `m`, every construct / literal of `g` selected by `sel` occurs in `p` at least as often. -/
 def coveredBy (sel : String → Bool) (m : String) (g p : List (String × String × Nat)) : Bool :=
